@@ -15,9 +15,21 @@ import (
 )
 
 func TestMain(m *testing.M) {
+	ev.StartWatchdog()
 	code := m.Run()
 	ev.FlushAll()
 	os.Exit(code)
+}
+
+// watched marks the beginning and the end of every case for the stuck-case watchdog
+// (ev.StartWatchdog). Until the property body has built its case and said so with ev.SetCurrent,
+// the watchdog only knows that the case is still being generated.
+func watched(prop string, body func(*rapid.T)) func(*rapid.T) {
+	return func(t *rapid.T) {
+		ev.SetCurrent(prop, "(case still being generated)")
+		defer ev.SetCurrent(prop, nil)
+		body(t)
+	}
 }
 
 // tier reports whether the thorough tier is running.
